@@ -40,7 +40,7 @@ let run_hist ops =
    (float kinds: the binary32 bit pattern), opts k=sym/k=sym or '-' *)
 let u32_of_z (v:z) : string =
   let i = int_of_z v in string_of_int (if i < 0 then i + 0x100000000 else i)
-let parse_port (d:string) : cell =
+let parse_port (d:string) =
   match String.split_on_char ':' d with
   | [name; kind; n; mn; mx; opts] ->
     let n = int_of_string n in
